@@ -43,6 +43,9 @@ raw_fixed!(10, u128, 1);
 raw_fixed!(11, u128, 2);
 raw_fixed!(12, usize, 1);
 raw_fixed!(13, usize, 2);
+raw_fixed!(16, u128, 3);
+raw_fixed!(17, u64, 5);
+raw_fixed!(18, u16, 4);
 
 impl Raw for Bvd {
     const KID: u8 = 14;
@@ -104,7 +107,10 @@ macro_rules! with_kind {
             12 => { type $t = bva::Bvf<usize, 1>; $e }
             13 => { type $t = bva::Bvf<usize, 2>; $e }
             14 => { type $t = bva::Bvd; $e }
-            _ => { type $t = bva::Bv; $e }
+            15 => { type $t = bva::Bv; $e }
+            16 => { type $t = bva::Bvf<u128, 3>; $e }
+            17 => { type $t = bva::Bvf<u64, 5>; $e }
+            _ => { type $t = bva::Bvf<u16, 4>; $e }
         }
     };
 }
